@@ -11,7 +11,7 @@ import subprocess
 import sys
 
 VERIF = os.path.dirname(os.path.dirname(os.path.abspath(__file__)))
-WT = "/tmp/wt/eval"
+WT = os.environ.get("SEED_WT", "/tmp/wt/eval")
 
 
 def sh(cmd, env=None, cwd=None, timeout=1800):
